@@ -73,7 +73,7 @@ Section OpenJournal.
   Definition jb_entries (b : jbatch) : list entry := stamp (fst b - 1) (map (norm_rec kp) (jb_recs b)).
 
   Definition jb_ok (b : jbatch) : Prop :=
-    Forall (rec_wf kp) (jb_recs b) /\ 1 <= fst b /\ fst b - 1 + jb_n b <= keyMaxSeq kp /\
+    Forall (rec_wf kp) (jb_recs b) /\ 1 <= fst b /\ fst b + jb_n b <= keyMaxSeq kp /\
     jb_n b < 2 ^ 32 /\ lenN (enc_recs kp (jb_recs b)) < 2 ^ 59.
 
   (* replay_journal of Store/Crash.v, keeping the batches themselves *)
@@ -140,7 +140,7 @@ Section OpenJournal.
     assert (Hok : Forall (rec_ok kp) (jb_recs b)) by (eapply Forall_impl; [|exact Hw]; apply (rec_wf_ok kp kpok seek_val)).
     assert (Hs64 : fst b < 2 ^ 64) by (unfold jb_n in *; lia).
     unfold replay_record, jb_enc.
-    rewrite (replay_equals_live kp kpok bhl eq_refl (ibc c) mp (snd b) (fst b) (r_seq st) (r_mdb st) (r_hts st) Hok Hs64 Hn Hl).
+    rewrite (replay_equals_live kp kpok bhl eq_refl (ibc c) mp (snd b) (fst b) (r_seq st) (r_mdb st) (r_hts st) Hok Hs64 Hn Hl ltac:(unfold jb_n, jb_recs in *; lia)).
     destruct (fst b <? r_seq st) eqn:Elt.
     - rewrite Hns. destruct st as [cs rec sq d hts kept]. cbn [r_c r_rec r_seq r_mdb r_hts r_kept] in *.
       eexists. split; [reflexivity|]. cbn [r_c r_rec r_seq r_mdb r_hts r_kept].
@@ -151,7 +151,7 @@ Section OpenJournal.
       { change (2 ^ 59) with 576460752303423488 in Hl. change (2 ^ 63) with 9223372036854775808. lia. }
       assert (Hf' : forall x, In x (mem_entries mp (Some (r_mdb st))) -> e_seq x <= fst b - 1).
       { intros x Hx. specialize (Hf x Hx). lia. }
-      destruct (putmem_group_history c cok kp kpok seek_val mp mpok (r_mdb st) (snd b) (fst b - 1) (r_hts st) Hm Hf' Hw Hs Hh Hl')
+      destruct (putmem_group_history c cok kp kpok seek_val mp mpok (r_mdb st) (snd b) (fst b - 1) (r_hts st) Hm Hf' Hw ltac:(unfold jb_n, jb_recs in *; lia) Hh Hl')
         as (d' & hs' & E & Hm' & Hh' & Hin).
       replace (fst b - 1 + 1) with (fst b) in E by lia. rewrite E.
       cbn [andb]. eexists. split; [reflexivity|]. cbn [r_c r_rec r_seq r_mdb r_hts r_kept].
